@@ -93,6 +93,9 @@ func init() {
 		zz + "PoolGets":     func(fr *frame, a []Value) Value { return fr.x.f.Const(64, uint64(fr.x.poolGets)) },
 		zz + "LocksHeld":    func(fr *frame, a []Value) Value { return fr.x.f.Const(64, uint64(fr.x.cur.held)) },
 		zz + "TrackRelease": func(fr *frame, a []Value) Value { fr.x.trackRelease = a[0].(*Term).IsTrue(); return nil },
+		zz + "Yield":          func(fr *frame, a []Value) Value { return nil },
+		zz + "RegisterThread": func(fr *frame, a []Value) Value { return nil },
+		zz + "ExpectThread":   func(fr *frame, a []Value) Value { return nil },
 		zz + "Symbolic":     func(fr *frame, a []Value) Value { return fr.x.f.Bool(true) },
 		zz + "SameBacking": func(fr *frame, a []Value) Value {
 			s1, s2 := a[0].(Slice), a[1].(Slice)
